@@ -248,8 +248,37 @@ C12 = {
 }
 
 
+# ---------------------------------------------------------------------------------------------
+# Which harnesses are actually part of the checks (name -> (tier, measured seconds on the shared,
+# heavily loaded box; "Verification Time" reported by Kani)). Harnesses defined in the .rs files
+# but absent here did NOT finish within 14 GB / 20 min (see DROPPED) and are not run.
+RUN = {}
+DROPPED = {}
+
+
+def finalize(spec):
+    kept = []
+    for u in spec["units"]:
+        hs = []
+        for hh in u["harnesses"]:
+            if hh["name"] in RUN:
+                tier, secs = RUN[hh["name"]]
+                hh = dict(hh)
+                hh["tier"] = tier
+                hh["measured_s"] = secs
+                hs.append(hh)
+        u["harnesses"] = hs
+        kept += [x["name"] for x in hs]
+    dropped = DROPPED.get(spec["id"], [])
+    if dropped:
+        spec["outside_claim"] = list(spec["outside_claim"]) + [
+            "NOT DECIDED (harness exists in the .rs file but CBMC exceeded 14 GB or 20 min; not part of the check): " + d for d in dropped]
+    return spec
+
+
 def main():
     for spec in (C12, C13, C14):
+        finalize(spec)
         with open(os.path.join(VERIF, "checks", spec["id"] + ".json"), "w") as f:
             json.dump(spec, f, indent=1)
             f.write("\n")
